@@ -91,22 +91,33 @@ class Ctx(object):
 # ----------------------------------------------------------------------------------------------
 # model registry
 
-_REC = None
+_REC = {}
+REC_NAMES = ['NumberRecognizer', 'NumberWithUnitRecognizer', 'SequenceRecognizer', 'ChoiceRecognizer', 'DateTimeRecognizer']
 
 
-def recognizers():
-    """name -> recogniser instance (default options, lazy) for the five packages."""
-    global _REC
-    if _REC is None:
-        from recognizers_number import NumberRecognizer
-        from recognizers_number_with_unit import NumberWithUnitRecognizer
-        from recognizers_sequence import SequenceRecognizer
-        from recognizers_choice.choice.recognizers_choice import ChoiceRecognizer
-        from recognizers_date_time import DateTimeRecognizer
-        _REC = collections.OrderedDict((type(r).__name__, r) for r in (
-            NumberRecognizer(), NumberWithUnitRecognizer(), SequenceRecognizer(), ChoiceRecognizer(),
-            DateTimeRecognizer()))
-    return _REC
+def recognizer(name):
+    """One long-lived recogniser per package, default options; models are built on first request only
+    (lazy_initialization=False means 'do not build all 81 models now' in this code base)."""
+    if name not in _REC:
+        if name == 'NumberRecognizer':
+            from recognizers_number import NumberRecognizer as R
+        elif name == 'NumberWithUnitRecognizer':
+            from recognizers_number_with_unit import NumberWithUnitRecognizer as R
+        elif name == 'SequenceRecognizer':
+            from recognizers_sequence import SequenceRecognizer as R
+        elif name == 'ChoiceRecognizer':
+            from recognizers_choice.choice.recognizers_choice import ChoiceRecognizer as R
+        elif name == 'DateTimeRecognizer':
+            from recognizers_date_time import DateTimeRecognizer as R
+        else:
+            raise KeyError(name)
+        _REC[name] = R(lazy_initialization=False)
+    return _REC[name]
+
+
+def recognizers(names=None):
+    import collections as _c
+    return _c.OrderedDict((n, recognizer(n)) for n in (names or REC_NAMES))
 
 
 def registered():
@@ -124,7 +135,7 @@ _MODELS = {}
 def model(rn, mt, cu, watch=True):
     k = (rn, mt, cu)
     if k not in _MODELS:
-        rec = recognizers()[rn]
+        rec = recognizer(rn)
         m = rec.model_factory.get_model(mt, cu, False, rec.options)
         if watch:
             watch_model(m)
